@@ -61,7 +61,7 @@ def elfSecS (s : ElfSec) : String :=
   "{" ++ s!"type={s.typ.discr},raw={s.raw},flags={s.flags},start={s.start},end={s.end},size={s.size},align={s.align},alloc={boolS (s.flags / 2 % 2 == 1)},rem={s.rem}" ++ "}"
 
 def elfS (T : Bytes) (v : View) : String :=
-  fields T [("num", 8, 4), ("entsize", 12, 4), ("shndx", 16, 4)] ++ "sections=" ++
+  fields T (Kind.fields .elf) ++ "sections=" ++
   (match elfOpen T v with
    | .ok (num, es) => let r := elfIter T es num 20; "[" ++ String.join (r.1.map elfSecS) ++ endS r.2
    | .panic => "P" | .oob => "OOB" | .ub => "UB") ++ ","
@@ -74,11 +74,11 @@ def fbTypeS (T : Bytes) (v : View) : Res (Ex Nat FbType) → String
   | .panic => "P" | .oob => "OOB" | .ub => "UB"
 
 def fbS (T : Bytes) (v : View) : String :=
-  fields T [("address", 8, 8), ("pitch", 16, 4), ("width", 20, 4), ("height", 24, 4), ("bpp", 28, 1)] ++
+  fields T (Kind.fields .fb) ++
   "type=" ++ fbTypeS T v (fbBufferType T v) ++ ","
 
 def mmapS (T : Bytes) (v : View) : String :=
-  fields T [("entry_size", 8, 4), ("entry_version", 12, 4)] ++ "areas=" ++
+  fields T (Kind.fields .mmap) ++ "areas=" ++
   (match memoryAreas T v with
    | .ok as => s!"[{roff v 16}:{as.length}|" ++
        String.join (as.map fun a => "{" ++ s!"start={a.start},end={a.end},size={a.size},typ={a.typ}," ++ "}") ++ "]"
@@ -87,13 +87,9 @@ def mmapS (T : Bytes) (v : View) : String :=
 def colonJoin (l : List (Res Nat)) : String := ":".intercalate (l.map (resS toString))
 
 def vbeS (T : Bytes) : String :=
-  fields T [("mode", 8, 2), ("iseg", 10, 2), ("ioff", 12, 2), ("ilen", 14, 2)] ++
-  "ci=" ++ colonJoin [rd8 T 16, rd8 T 17, rd8 T 18, rd8 T 19, rd16 T 20, rd32 T 22, rd32 T 26, rd32 T 30, rd16 T 34,
-                       rd16 T 36, rd32 T 38, rd32 T 42, rd32 T 46] ++ "," ++
-  "mi=" ++ colonJoin [rd16 T 528, rd8 T 530, rd8 T 531, rd16 T 532, rd16 T 534, rd16 T 536, rd16 T 538, rd32 T 540,
-                       rd16 T 544, rd16 T 546, rd16 T 548, rd8 T 550, rd8 T 551, rd8 T 552, rd8 T 553, rd8 T 554,
-                       rd8 T 555, rd8 T 556, rd8 T 557, rd8 T 559, rd8 T 560, rd8 T 561, rd8 T 562, rd8 T 563,
-                       rd8 T 564, rd8 T 565, rd8 T 566, rd8 T 567, rd32 T 568, rd32 T 572, rd16 T 576, .ok 0, .ok 0] ++ ","
+  fields T (Kind.fields .vbe) ++
+  "ci=" ++ colonJoin (vbeControlFields.map fun (o, w) => rdW T o w) ++ "," ++
+  "mi=" ++ colonJoin (vbeModeFields.map (fun (o, w) => rdW T o w) ++ [.ok 0, .ok 0]) ++ ","
 
 def isOkSome {α} : Res (Option α) → Bool
   | .ok (some _) => true | _ => false
@@ -125,7 +121,7 @@ def sweepLoaded (p : Profile) (R : Bytes) : String :=
   let mods := moduleViews p area
   let modS := "modules=[" ++ String.join (mods.1.map fun v =>
       let T := ext v
-      s!"@{8 + v.off}:{v.sov}" ++ "{" ++ fields T [("start", 8, 4), ("end", 12, 4)] ++
+      s!"@{8 + v.off}:{v.sov}" ++ "{" ++ fields T (Kind.fields .module) ++
         fld "size" (do let a ← rd32 T 8; let b ← rd32 T 12; pure (b - a)) ++
         s!"cmdline={strS T v 16 v.n}," ++ "}") ++ endS mods.2 ++ ";"
   -- deprecated elf_sections()
@@ -160,7 +156,7 @@ def sweepLoaded (p : Profile) (R : Bytes) : String :=
   let dbgPanics := w.2 != .done || getters.any isPanic || efiDbgPanics || elfDbgPanics || fbDbgPanics || mods.2 != .done
   tagsS ++
   simple "apm" .apm ++ simple "meminfo" .meminfo ++
-  getter "loader" (g .loader) (fun v => fields (ext v) [("typ", 0, 4), ("size", 4, 4)] ++ s!"name={strS (ext v) v 8 v.n},") ++
+  getter "loader" (g .loader) (fun v => fields (ext v) (Kind.fields .loader) ++ s!"name={strS (ext v) v 8 v.n},") ++
   simple "bootdev" .bootdev ++
   getter "cmdline" (g .cmdline) (fun v => s!"cmdline={strS (ext v) v 8 v.n},") ++
   simple "efi_bs" .efiBs ++ simple "efi_ih32" .efiIh32 ++ simple "efi_ih64" .efiIh64 ++
@@ -173,11 +169,11 @@ def sweepLoaded (p : Profile) (R : Bytes) : String :=
   modS ++
   simple "network" .network ++
   getter "rsdp1" (g .rsdp1) (fun v => let T := ext v
-    s!"signature={utf8S T v 8 8},valid={resS boolS (rsdp1Valid T)},oem_id={utf8S T v 17 6}," ++ fields T [("revision", 23, 1), ("rsdt", 24, 4)]) ++
+    s!"signature={utf8S T v 8 8},valid={resS boolS (rsdp1Valid T)},oem_id={utf8S T v 17 6}," ++ fields T (Kind.fields .rsdp1)) ++
   getter "rsdp2" (g .rsdp2) (fun v => let T := ext v
-    s!"signature={utf8S T v 8 8},valid={resS boolS (rsdp2Valid T)},oem_id={utf8S T v 17 6}," ++ fields T [("revision", 23, 1), ("xsdt", 32, 8), ("ext_checksum", 40, 1)]) ++
+    s!"signature={utf8S T v 8 8},valid={resS boolS (rsdp2Valid T)},oem_id={utf8S T v 17 6}," ++ fields T (Kind.fields .rsdp2)) ++
   getter "smbios" (g .smbios) (fun v => let T := ext v
-    fields T [("major", 8, 1), ("minor", 9, 1)] ++ s!"tables=b({roff v 16}:{v.n}:{hex64 (fnv (slice T 16 v.n))}),") ++
+    fields T (Kind.fields .smbios) ++ s!"tables=b({roff v 16}:{v.n}:{hex64 (fnv (slice T 16 v.n))}),") ++
   getter "vbe" (g .vbe) (fun v => vbeS (ext v)) ++
   elfSecs ++
   "debug=" ++ (if dbgPanics then "P" else "ok") ++ ";"
